@@ -12,6 +12,7 @@ import numpy as np
 from rv import core, zoo, monitors
 
 LEVEL = 'exploration'
+LEVEL_TEXT = 'Contract on the real hist_bins (class attribute rebound, so gate/plots/Excel are monitored too): count, monotonicity, coverage, positive log edges, logicle edges vs an independent transform, centring for default n, list == per-channel, call-history independence, refusals. Exploration.'
 TECHNIQUE = 'runtime contract on FCSData.hist_bins with an independent logicle reference and centring oracle'
 RULE = ('fresh loads of samples with resolutions 2^8..2^18 and non-powers of two, raw / RFI / MEF ranges x channel forms '
         '{name, position, list, all} x n in {1,2,default,arbitrary,per-channel lists} x scale in {linear,log,logicle,'
